@@ -141,6 +141,8 @@ type ReaderSkipDecoder struct {
 
 	n int // bytes read, n <= len(b)
 	b []byte
+
+	lent bool // b[:n] was returned by Next and stays valid till the next Next or Release
 }
 
 var poolReaderSkipDecoder = sync.Pool{
@@ -165,6 +167,7 @@ func (p *ReaderSkipDecoder) Release() {
 	// no need to free p.b
 	// will make use of p.b without reallcation
 	p.Reset(nil)
+	p.lent = false
 	poolReaderSkipDecoder.Put(p)
 }
 
@@ -186,7 +189,9 @@ func (p *ReaderSkipDecoder) growSlow(n int) {
 	// mcache will take care of the size of newb
 	newb := mcache.Malloc(p.n + n)
 	copy(newb, p.b[:p.n])
-	mcache.Free(p.b)
+	if !p.lent { // the caller of Next may still hold p.b: leave it to the GC
+		mcache.Free(p.b)
+	}
 	p.b = newb
 }
 
@@ -195,9 +200,11 @@ func (p *ReaderSkipDecoder) growSlow(n int) {
 // The returned []byte is valid before the next `Next` call or `Release`
 func (p *ReaderSkipDecoder) Next(t TType) (b []byte, err error) {
 	p.n = 0
+	p.lent = false
 	if err = NewSkipDecoderTpl(p).Skip(t, defaultRecursionDepth); err != nil {
 		return
 	}
+	p.lent = true
 	return p.b[:p.n], nil
 }
 
